@@ -84,13 +84,16 @@ static void write_file(const std::string& path, const std::vector<std::vector<st
    if (deco == 3) f << "# comment last\n\n";
 }
 
-static void source_case(const Cfg& cfg, const std::vector<Use>& uses, const std::vector<int>& src, int layout, int deco, uint64_t case_idx) {
+// nest: where the argument file is referenced from: 0 = argv (at the position of its first use), 1 = at the end of the environment variable, 2 = last line of the program-argument file
+static void source_case(const Cfg& cfg, const std::vector<Use>& uses, const std::vector<int>& src, int layout, int deco, uint64_t case_idx, int nest = 0) {
    using namespace celma::prog_args;
    // evaluation order: program-argument file, environment, then argv with the argument file at the position of its first use
    std::vector<Use> order; std::vector<bool> counts;
    for (size_t i = 0; i < uses.size(); ++i) if (src[i] == PROGFILE) { order.push_back(uses[i]); counts.push_back(false); }
+   if (nest == 2) for (size_t i = 0; i < uses.size(); ++i) if (src[i] == ARGFILE) { order.push_back(uses[i]); counts.push_back(false); }
    for (size_t i = 0; i < uses.size(); ++i) if (src[i] == ENV) { order.push_back(uses[i]); counts.push_back(false); }
-   bool argfile_done = false; std::vector<std::string> argv_words; std::string argfile_path = g_home + "/extra.args";
+   if (nest == 1) for (size_t i = 0; i < uses.size(); ++i) if (src[i] == ARGFILE) { order.push_back(uses[i]); counts.push_back(false); }
+   bool argfile_done = nest != 0; std::vector<std::string> argv_words; std::string argfile_path = g_home + "/extra.args";
    std::vector<std::vector<std::string>> pf_words, af_words, env_words;
    for (size_t i = 0; i < uses.size(); ++i) {
       auto forms = spell_use(cfg, uses[i], false); if (forms.empty()) return;
@@ -104,6 +107,8 @@ static void source_case(const Cfg& cfg, const std::vector<Use>& uses, const std:
    if (v.k == UNSPEC) { vf::count("skipped_unspecified"); return; }
    // set the sources up
    std::string pa = g_home + "/.progargs/prog.pa"; unlink(pa.c_str()); unlink(argfile_path.c_str());
+   if (nest == 2 && !af_words.empty()) pf_words.push_back({"--arg-file", argfile_path});
+   if (nest == 1 && !af_words.empty()) env_words.push_back({"--arg-file", argfile_path});
    if (!pf_words.empty()) write_file(pa, pf_words, layout, deco);
    if (!af_words.empty()) write_file(argfile_path, af_words, layout, deco);
    if (!env_words.empty()) { std::vector<std::string> all; for (auto& u : env_words) all.insert(all.end(), u.begin(), u.end()); setenv("PROG", join_words(all).c_str(), 1); } else unsetenv("PROG");
@@ -119,13 +124,13 @@ static void source_case(const Cfg& cfg, const std::vector<Use>& uses, const std:
       o.snap = snapshot(cfg, b->slots);
    }
    ++g_evals; ++g_splits; vf::heartbeat();
-   std::string srcs; for (int s : src) srcs += "APFE"[s];
+   std::string srcs; for (int s : src) srcs += "APFE"[s]; if (nest) srcs += nest == 1 ? "(F via E)" : "(F via P)";
    bool override_case = false; for (size_t i = 0; i < uses.size(); ++i) for (size_t j = 0; j < uses.size(); ++j) if (i != j && uses[i].arg == uses[j].arg && src[i] != ARGV && src[j] == ARGV) override_case = true;
    if (override_case) ++g_overrides;
    if (v.k == INVALID) ++g_rejections;
    if (vf::verbose()) printf("  %s sources %s layout %d/%d argv %s -> model %s(%s) impl %s %s %s\n", uses_text(cfg, uses).c_str(), srcs.c_str(), layout, deco, words_text(argv_words).c_str(), v.k == VALID ? "valid" : "invalid", v.reason.c_str(), o.kind ? "throws" : "returns", o.what.c_str(), snap_text(o.snap).c_str());
    std::string ctx = cfg.text() + " uses " + uses_text(cfg, uses) + " delivered by " + srcs + " (A argv, P program-argument file, F argument file, E environment), file layout " + std::to_string(layout) + "/" + std::to_string(deco);
-   std::set<char> used_src(srcs.begin(), srcs.end()); std::string ss(used_src.begin(), used_src.end());
+   std::set<char> used_src; for (int s : src) used_src.insert("APFE"[s]); std::string ss(used_src.begin(), used_src.end()); if (nest) ss += nest == 1 ? "+F-via-E" : "+F-via-P";
    if (v.k == VALID) {
       if (o.kind != 0) vf::violation("rejected|sources " + ss + (override_case ? "|override" : ""), ctx + ": rejected (" + o.what + ") although the same uses are valid", std::to_string(case_idx));
       else if (o.snap != v.snap) vf::violation("wrong-value|sources " + ss + (override_case ? "|override" : ""), ctx + ": destinations " + snap_text(o.snap) + " expected " + snap_text(v.snap), std::to_string(case_idx));
@@ -156,6 +161,8 @@ static void part2() {
             while (so.next()) {
                std::vector<int> src; bool any_file = false; for (int i = 0; i < d; ++i) { src.push_back(int(so[i])); if (so[i] == PROGFILE || so[i] == ARGFILE) any_file = true; }
                for (int layout = 0; layout < (any_file ? 2 : 1); ++layout) for (int deco = 0; deco < (any_file ? 4 : 1); ++deco) source_case(cfg, uses, src, layout, deco, vf::current_case());
+               bool has_af = false; for (int x : src) has_af = has_af || x == ARGFILE;
+               if (has_af) for (int nest = 1; nest <= 2; ++nest) for (int layout = 0; layout < 2; ++layout) source_case(cfg, uses, src, layout, 0, vf::current_case(), nest);
             }
             vf::nontrivial_by_construction();
          }
